@@ -16,6 +16,8 @@ RE_UNSAFE = re.compile(r'<<"UNSAFE", (\d+), (\d+)>>')
 
 
 def tla_const(v):
+    if isinstance(v, (set, frozenset, list, tuple)) and not isinstance(v, str):
+        return "{" + ", ".join(tla_const(x) for x in sorted(v)) + "}"
     if isinstance(v, bool):
         return "TRUE" if v else "FALSE"
     if isinstance(v, str):
